@@ -7,6 +7,7 @@ this is the basis-independent way to say "the same physical operator".
 import copy
 import functools
 import itertools
+import json
 import warnings
 
 import numpy as np
@@ -43,9 +44,20 @@ def dense(site, name):
     return site.get_op(name).to_ndarray()
 
 
+@functools.lru_cache(maxsize=None)
+def _ref_info(spec_json):
+    ref = make_site(ref_spec(json.loads(spec_json)))
+    return canon_labels(ref), dict(ref.state_labels)
+
+
+def ref_canon(spec):
+    """Canonical labels of the states of the conserve=None site, in its index order."""
+    return _ref_info(json.dumps(spec, sort_keys=True))[0]
+
+
 def ref_index(spec, label):
     """Index of the state `label` in the conserve=None basis."""
-    return make_site(ref_spec(spec)).state_labels[label]
+    return _ref_info(json.dumps(spec, sort_keys=True))[1][label]
 
 
 def canon_labels(site):
@@ -249,12 +261,12 @@ def check_generic(site, where):
         M = op.to_ndarray()
         if op.get_leg_labels() != ['p', 'p*']:
             bad('op-labels', '%s has labels %s' % (n, op.get_leg_labels()))
-        for a, b in zip(*np.nonzero(np.abs(M) > 1e-14)):
-            diff = q[a] - q[b] - op.qtotal
-            diff = np.where(mod > 1, diff % np.where(mod > 1, mod, 1), diff)
-            if np.any(diff != 0):
-                bad('op-charge', '%s connects states of charges %s,%s but has qtotal %s' % (n, q[a], q[b], op.qtotal))
-                break
+        a, b = np.nonzero(np.abs(M) > 1e-14)
+        diff = q[a] - q[b] - op.qtotal
+        diff = np.where(mod > 1, diff % np.where(mod > 1, mod, 1), diff)
+        if np.any(diff != 0):
+            k = np.nonzero(np.any(diff != 0, axis=1))[0][0]
+            bad('op-charge', '%s connects states of charges %s,%s but has qtotal %s' % (n, q[a[k]], q[b[k]], op.qtotal))
     for n, h in sorted(site.hc_ops.items()):
         if n not in site.opnames or h not in site.opnames:
             bad('hc_ops-dangling', 'hc_ops has %s->%s, opnames=%s' % (n, h, sorted(site.opnames)))
@@ -480,7 +492,7 @@ def check_common(case):
     bad = lambda key, msg: out.append(('common:%s:%s' % (tag, key), '%s: %s' % (case, msg)))  # noqa: E731
     sites = [make_site(sp) for sp in specs]
     olds = [make_site(sp) for sp in specs]
-    canons = [canon_labels(make_site(ref_spec(sp))) for sp in specs]
+    canons = [ref_canon(sp) for sp in specs]
     before = [snapshot(s) for s in sites]
     new_charges = expected_new_charges(sites, policy)
     kw = {k: case[k] for k in ('new_names', 'new_mod') if case.get(k) is not None}
@@ -567,7 +579,7 @@ def check_group(case):
     sites = [uniq.setdefault(i, make_site(sp)) for i, sp in zip(case.get('objects', range(len(specs))), specs)]
     if case.get('precommon'):
         set_common_charges(list(uniq.values()), 'same')
-    canons = [canon_labels(make_site(ref_spec(sp))) for sp in specs]
+    canons = [ref_canon(sp) for sp in specs]
     before = [snapshot(s) for s in sites]
     try:
         with warnings.catch_warnings():
